@@ -216,6 +216,15 @@ func c09String(c *core.Ctx, s string) {
 	case !ok && err == nil:
 		c.Violation("version-new|accepts-malformed", fmt.Sprintf("version.New(%q) returned %+v and no error", s, v), w)
 	}
+	if ok && err == nil && v != nil {
+		// the value handed out belongs to the caller: editing it must not change what the string parses to later
+		v.Major, v.Minor = v.Major+7, v.Minor+3
+		v2, err2 := version.New(s)
+		if err2 != nil || v2 == nil || v2.Major != maj || v2.Minor != min {
+			c.Violation("version-new|second-call-differs", fmt.Sprintf("version.New(%q) was %d.%d; after the caller changed the fields of that value a second version.New(%q) gives %+v (err %v)", s, maj, min, s, v2, err2), w)
+		}
+		c.Add("version_strings_parsed_again_after_editing_the_first_value", 1)
+	}
 	c.Cover("version_string_wellformed", fmt.Sprint(ok))
 	c.NonTrivial([]byte("str"), []byte(s))
 	if c.WantSample() && ok {
